@@ -15,15 +15,15 @@ CONFIG = {
     ],
     "assumptions": [
         "model/BclFmt.v is the hand-written model of fmt.go (Fmt, FmtDiffs, collectFmtFragments, fmter, tokenSource) and description.go as they are after the fix: commits listed in KNOWN_FINDINGS.txt, on top of the C11 models of lexer and walker; tied to the code by this run's correspondence (FmtDiffs edit lists byte for byte, or its error / panic) and by the regenerated tables",
-        "C19_apply_partial carries one unproved hypothesis: the lines after the last statement are blank (a line on which no token starts or ends holds only white space); the direct oracle evaluates the unconditional statement on every case",
+        "edits are applied as whole-line replacements in the order given (LSP ranges (FromLine,0)-(ToLine,0)); a blank line is one whose runes all satisfy unicode.IsSpace",
     ],
     "mult_search": 4,
     "refuted": [],
-    "partial": ["C19_apply_partial: apply(edits) = Fmt output up to trailing blank lines, given that the lines after the last statement are blank (lexer coverage fact not proved)"],
+    "partial": [],
 }
 
 MANIFEST = {
-    "text": "Theorems over a Gallina model of FmtDiffs on top of the proved lexer/walker models, for all inputs: FmtDiffs never panics (lines[from:to] always in bounds) and never exhausts fuel; whenever the formatter accepts a file the edit list is computed and is ascending, non-overlapping with start<=end<=#lines (proved from the invariant that the walker's fragments come in non-decreasing line order inside the document, itself proved from the token-order theorem of C11, and from a proof that merging fragments sharing a line yields strictly separated ranges); applying the edits (whole-line replacement) equals the formatter output up to trailing blank lines under one explicit hypothesis (lines after the last statement are blank). Full statement kept as C19_full_statement.",
-    "note": "PARTIAL on the last clause: 'applying them produces the formatter's output up to trailing blank lines' is proved with the hypothesis that the lines after the last statement are blank (true of the real lexer, checked by oracle and correspondence on every run, not proved). The well-formedness and no-failure clauses are proved unconditionally for the code after fixes e44da54 (hdr.End), 4de979f (merge fragments sharing a line) and ab17fab (white-space-only one-line gaps). Trusted: Coq kernel, translator, harness; Go slices/strings modelled.",
+    "text": "Theorems over a Gallina model of FmtDiffs on top of the proved lexer/walker models, for all inputs: FmtDiffs never panics (lines[from:to] always in bounds) and never exhausts fuel; whenever the formatter accepts a file the edit list is computed and is ascending, non-overlapping with start<=end<=#lines (from the invariant that the walker's fragments come in non-decreasing line order inside the document, proved from the token-order theorem of C11, and a proof that merging fragments sharing a line yields strictly separated ranges); applying the edits (whole-line replacement) equals the formatter output up to trailing blank lines (from lexer coverage: every rune is inside a token or is skipped white space; walker coverage: every non-EOL token ends on or before the last line of some fragment, because a trailing comment and the closing EOL stay on the statement's last line; and []rune conversion commuting with line splitting). C19_full_statement is proved (C19_full).",
+    "note": "Full statement proved for the code after fixes e44da54 (hdr.End), 4de979f (merge fragments sharing a line) and ab17fab (white-space-only one-line gaps). Trusted: Coq kernel, translator, harness; Go slices/strings/[]rune modelled, LSP application of edits modelled as whole-line replacement. All C19 theorems closed under the global context.",
     "technique": "Rocq/Coq proof (fragment-order invariant from the walker theorems; induction over merged fragments relating the edit loop, apply_edits and Fmt's line structure) + in-Coq differential correspondence of edit lists + direct oracle applying the edits",
 }
